@@ -267,15 +267,18 @@ def run(tier, seed, replay):
             return
         check(name, got, want, forms, out, tol, data)
     outs = [None, "Dense", "CSR", "Dia"]
-    nshape = 6 if tier == "quick" else 30
-    for it in range(nshape):
-        shape = shapes_all[it % len(shapes_all)] if it < len(shapes_all) else shapes_all[int(rng.integers(0, len(shapes_all)))]
+    # quick: the six shape classes once, then rectangular operands with several stored diagonals
+    plan = [(shapes_all[i], kinds[i % len(kinds)]) for i in range(6)] + [((7, 3), "full"), ((3, 7), "diagonals"), ((3, 7), "full"), ((4, 4), "random")]
+    if tier == "thorough":
+        plan += [(shapes_all[int(rng.integers(0, len(shapes_all)))], str(rng.choice(kinds))) for _ in range(24)]
+    for it, (shape, kind_a) in enumerate(plan):
         r, c = shape
-        A = pattern(rng, shape, kinds[it % len(kinds)])
+        A = pattern(rng, shape, kind_a)
         B = pattern(rng, shape, str(rng.choice(kinds)))
         Bt = pattern(rng, (c, int(rng.choice([1, 3, c]))), str(rng.choice(kinds)))
-        rep.case({"shape": list(shape), "kind": kinds[it % len(kinds)]}, np.count_nonzero(A) >= 2)
-        forms_sel = FORMS if tier == "thorough" else list(rng.permutation(FORMS)[:5])
+        rep.case({"shape": list(shape), "kind": kind_a}, np.count_nonzero(A) >= 2)
+        # every run sees the three storage types against themselves; the messy variants are sampled
+        forms_sel = FORMS if tier == "thorough" else list(dict.fromkeys(["dense_c", "csr", "dia"] + list(rng.permutation(FORMS)[:3])))
         data = {"shape": list(shape), "A": str(A.tolist())}
         for fa in forms_sel:
             XA = build(A, fa, rng)
@@ -346,7 +349,8 @@ def run(tier, seed, replay):
                 attempt("as_ndarray", lambda: np.array(XA.as_ndarray()), [fa], None, A, data=data)
             attempt("copy", lambda: XA.copy(), [fa], None, A, data=data)
             # binary operations
-            for fb in (forms_sel if tier == "thorough" else list(rng.permutation(forms_sel)[:3])):
+            same_type = {"dense_c": "dense_c", "dense_f": "dense_c", "csr": "csr", "csr_unsorted": "csr", "csr_view": "csr", "dia": "dia", "dia_messy": "dia", "dia_view": "dia"}[fa]
+            for fb in (forms_sel if tier == "thorough" else list(dict.fromkeys([same_type] + list(rng.permutation(forms_sel)[:2])))):
                 XB = build(B, fb, rng)
                 XBt = build(Bt, fb, rng)
                 for out in outs:
@@ -362,6 +366,7 @@ def run(tier, seed, replay):
                     attempt("kron_transpose", lambda: _data.kron_transpose(XA, XBt, **kw), [fa, fb], out, np.kron(A.T, Bt), data=data)
                     if c == 1:
                         attempt("matmul_outer", lambda: _data.matmul_outer(XA, build(B.conj().T, fb, rng), **kw), [fa, fb], out, A @ B.conj().T, data=data)
+                        attempt("matmul_outer-scale", lambda: _data.matmul_outer(XA, build(B.conj().T, fb, rng), 2 - 1j, **kw), [fa, fb], out, (2 - 1j) * (A @ B.conj().T), data=data)
                 attempt("isequal", lambda: bool(_data.isequal(XA, XB)), [fa, fb], None, bool(np.array_equal(A, B)), data=data)
                 attempt("isequal-self", lambda: bool(_data.isequal(XA, build(A, fb, rng))), [fa, fb], None, True, data=data)
                 if c == 1 and r > 1:
@@ -384,6 +389,53 @@ def run(tier, seed, replay):
                         attempt("inv", lambda: _data.inv(XA), [fa], None, np.linalg.inv(A), tol=1e-9, data=data)
                         rhs = pattern(rng, (r, 2), "full")
                         attempt("solve", lambda: _data.solve(XA, build(rhs, "dense_c", rng)), [fa], None, np.linalg.solve(A, rhs), tol=1e-9, data=data)
+                # rectangular operator between two vectors of the matching lengths
+                kl, kr = pattern(rng, (r, 1), "full"), pattern(rng, (c, 1), "full")
+                if r > 1 and c > 1:
+                    XL, XR = build(kl, fb, rng), build(kr, fb, rng)
+                    attempt("inner_op-rect", lambda: _data.inner_op(XL, XA, XR), [fb, fa, fb], None, (kl.conj().T @ A @ kr)[0, 0], data=data)
+                    attempt("inner_op-rect-bra", lambda: _data.inner_op(build(kl.conj().T, fb, rng), XA, XR), [fb, fa, fb], None, (kl.conj().T @ A @ kr)[0, 0], data=data)
+                    qa = qutip.Qobj(A, dims=[[r], [c]])
+                    attempt("Qobj.matrix_element", lambda: qa.to({"dense_c": "dense", "dense_f": "dense"}.get(fa, fa.split("_")[0])).matrix_element(
+                        qutip.Qobj(kl).to(fb.split("_")[0] if not fb.startswith("dense") else "dense"), qutip.Qobj(kr).to(fb.split("_")[0] if not fb.startswith("dense") else "dense")),
+                        [fb, fa, fb], None, (kl.conj().T @ A @ kr)[0, 0], data=data)
+                # a result is a new object: updating it in place must not reach an operand
+                Z = build(np.zeros_like(A), fb, rng)
+                fresh = {"add-zero": lambda: _data.add(XA, Z), "add-scale0": lambda: _data.add(XA, XB, 0), "sub-zero": lambda: _data.sub(XA, Z), "add": lambda: _data.add(XA, XB),
+                         "mul-one": lambda: _data.mul(XA, 1), "neg": lambda: _data.neg(XA), "transpose": lambda: _data.transpose(XA), "conj": lambda: _data.conj(XA),
+                         "adjoint": lambda: _data.adjoint(XA), "copy": lambda: XA.copy(), "tidyup-copy": lambda: _data.tidyup(XA, 1e-14, False), "multiply": lambda: _data.multiply(XA, XB),
+                         "reshape-same": lambda: _data.reshape(XA, r, c), "kron-one": lambda: _data.kron(XA, build(np.ones((1, 1), complex), fb, rng)),
+                         "zero-add": lambda: _data.add(Z, XA), "pow-one": (lambda: _data.pow(XA, 1)) if r == c else None,
+                         "matmul-identity": (lambda: _data.matmul(XA, build(np.eye(c, dtype=complex), fb, rng)))}
+                for nm, fn in fresh.items():
+                    if fn is None:
+                        continue
+                    try:
+                        with warnings.catch_warnings():
+                            warnings.simplefilter("ignore")
+                            res = fn()
+                            _data.imul(res, 3)
+                            _data.tidyup(res, 100.0, True)
+                    except Exception:       # noqa
+                        rep.count("fresh-check-raises")
+                        continue
+                    rep.evaluations += 1
+                    rep.count("fresh=" + nm)
+                    if not (np.array_equal(XA.to_array(), A) and np.array_equal(XB.to_array(), B) and not Z.to_array().any()):
+                        v(f"aliased-result:{nm}:{fa}", f"{nm} on operands stored as {[fa, fb]}: updating the result in place changed an operand", data)
+                        break
+                # `out` arguments of the dense-output products, in both memory orders
+                for fo in (False, True):
+                    for name_, prod, Rm in (("matmul-out", lambda o: _data.matmul(XA, build(Bt, "dense_f" if fo else "dense_c", rng), 1 + 1j, o), Bt),):
+                        for oo in (False, True):
+                            base_out = pattern(rng, (r, Rm.shape[1]), "full")
+                            O = _data.Dense(np.asfortranarray(base_out) if oo else np.ascontiguousarray(base_out), copy=False)
+                            if isinstance(XA, (_data.CSR, _data.Dense)):
+                                attempt(name_, lambda: prod(O), [fa, "dense_f" if fo else "dense_c", "out_f" if oo else "out_c"], None, (1 + 1j) * (A @ Rm) + base_out, data=data)
+                if c == 1 and r > 1:
+                    longer = pattern(rng, (r + 2, 1), "full")
+                    attempt("inner-bad-shape", lambda: _data.inner(XA, build(longer, fb, rng)), [fa, fb], None, None, data=data)
+                    attempt("inner-bad-shape-bra", lambda: _data.inner(build(A.conj().T, fa, rng), build(longer, fb, rng)), [fa, fb], None, None, data=data)
                 # shapes that do not fit must be rejected
                 wrong = pattern(rng, (r + 1, c + 2), "random")
                 XW = build(wrong, fb, rng)
@@ -396,6 +448,16 @@ def run(tier, seed, replay):
                     attempt("expm-bad-shape", lambda: _data.expm(XA), [fa], None, None, data=data)
                     attempt("pow-bad-shape", lambda: _data.pow(XA, 2), [fa], None, None, data=data)
                 attempt("reshape-bad-shape", lambda: _data.reshape(XA, r + 1, c), [fa], None, None, data=data)
+    # ------------------------------------------------------------------ diagonal matrices, with stored zeros and messy storage
+    for it in range(6 if tier == "quick" else 30):
+        n = int(rng.integers(2, 7))
+        dvals = rng.integers(-3, 4, n) / 4.0 + 1j * rng.integers(-3, 4, n) / 4.0
+        Dg = np.diag(dvals)
+        for form in FORMS:
+            X = build(Dg, form, rng)
+            attempt("expm-diagonal", lambda: _data.expm(X), [form], None, np.diag(np.exp(dvals)), tol=1e-12, data={"diag": str(dvals.tolist())})
+            attempt("isdiag-diagonal", lambda: bool(_data.isdiag(X)), [form], None, True)
+            attempt("pow-diagonal", lambda: _data.pow(X, 3), [form], None, np.diag(dvals ** 3), tol=1e-12)
     # ------------------------------------------------------------------ tensor permutations and partial traces of (very) sparse operators
     for it in range(10 if tier == "quick" else 60):
         dims = [[2, 3, 2], [2, 2, 2, 2], [3, 2], [2, 2, 3], [4, 3]][it % 5]
